@@ -2539,6 +2539,22 @@ FROM (
             return node
         return None
 
+    def _condition_uses_whole_dataset(self, node: AST.AST) -> bool:
+        """True if a condition applies an operator to a dataset that is not a ``ds#comp``."""
+        if isinstance(node, AST.BinOp):
+            if node.op == tokens.MEMBERSHIP:
+                return False
+            operands = (node.left, node.right)
+            if any(isinstance(o, AST.VarID) and self._get_node_type(o) == _DATASET for o in operands):
+                return True
+            return any(self._condition_uses_whole_dataset(o) for o in operands)
+        if isinstance(node, (AST.UnaryOp, AST.ParFunction)):
+            operand = node.operand
+            if isinstance(node, AST.UnaryOp) and isinstance(operand, AST.VarID):
+                return self._get_node_type(operand) == _DATASET
+            return self._condition_uses_whole_dataset(operand)
+        return False
+
     def _build_dataset_if(self, node: AST.If) -> str:
         """Build SQL for dataset-level IF-THEN-ELSE with JOINs."""
         # Find the source dataset that the condition references
@@ -2553,7 +2569,11 @@ FROM (
             and self._get_node_type(node.condition.left) == _DATASET
             and self._get_node_type(node.condition.right) == _DATASET
         )
-        cond_ds = self._get_dataset_structure(node.condition) if cond_is_ds_vs_ds else None
+        # The same holds when the condition applies an operator to a whole dataset
+        # (``DS_1 > 3``, ``isnull(DS_1)``): only ``ds#comp`` references can be
+        # evaluated as column expressions over the source dataset.
+        cond_as_subquery = cond_is_ds_vs_ds or self._condition_uses_whole_dataset(node.condition)
+        cond_ds = self._get_dataset_structure(node.condition) if cond_as_subquery else None
         if cond_ds is not None:
             source_sql = self.visit(node.condition)
             source_ids = list(cond_ds.get_identifiers_names())
